@@ -69,6 +69,7 @@ for name, path, quiet in entries():
                 bad.append(name)
     finally:
         subprocess.run(["git", "-C", REPO, "checkout", "--", "."])
+        subprocess.run(["git", "-C", REPO, "clean", "-fdq", "src"])      # files a patch added
     print(name, "->", res[name], flush=True)
 print("%s: %d, as expected: %d, not as expected: %s" % ("behaviour-preserving changes" if harmless else "breaking changes",
                                                          len(res), len(res) - len(bad), bad))
